@@ -42,12 +42,14 @@ MIN_COUNTERS = {
               'ok_blocks_checked': 1500, 'failed_blocks_checked': 1000,
               'rt_histories': 100, 'multi_client_histories': 150,
               'sync_blocks_checked': 150, 'sync_points_observed': 150,
+              'exit_fault_blocks_checked': 200, 'literal_int_targets': 300,
               'oracle_selftests': 1},
     'thorough': {'ops_compared': 1_500_000, 'messages_grammar_checked': 1_500_000,
                  'id_mentions_checked': 1_500_000, 'ledger_checks': 1_500_000,
                  'ok_blocks_checked': 30000, 'failed_blocks_checked': 20000,
                  'rt_histories': 1000, 'multi_client_histories': 5000,
                  'sync_blocks_checked': 3000, 'sync_points_observed': 3000,
+                 'exit_fault_blocks_checked': 5000, 'literal_int_targets': 5000,
                  'oracle_selftests': 1},
 }
 
@@ -164,6 +166,10 @@ def run_shard(spec, acc):
                    or any(o['op'] == 'buffer' and o['ctor'] == 'consecutive'
                           for o in flat))
         acc.case(sig, nontrivial=bool(creates and frees and special))
+        lit = sum(1 for o in flat if isinstance(o.get('target'), dict)
+                  and '$lit' in o['target']) + sum(1 for o in flat if 'node_id' in o)
+        if lit:
+            acc.count('literal_int_targets', lit)
         acc.count('histories')
         if mode == 'rt':
             acc.count('rt_histories')
